@@ -349,7 +349,6 @@ func (R *Repository) updateCrlEntry(entry *Entry, newChains *core.CertificateCha
 
 	err = R.updateEntry(entry, err, store)
 	if err != nil {
-		R.deleteEntrySync(identifier)
 		return err
 	}
 	R.logger.Info("finished updating crl " + entry.CRLLoader.GetDescription())
@@ -388,12 +387,8 @@ func (R *Repository) getCrlUpdateInformation(entry *Entry, err error) (*core.CRL
 func (R *Repository) updateEntry(entry *Entry, err error, store crlstore.CRLStore) error {
 	entry.entryLock.Lock()
 	defer entry.entryLock.Unlock()
+	//if the update fails the store keeps (or restores) its previous content, so the previous list stays in force
 	err = entry.CRLStore.Update(store)
-	if err != nil {
-		entry.CRLStore.Close()
-		//mark as empty in case someone already acquired the entry and waits for a lock
-		entry.CRLStore = nil
-	}
 	return err
 }
 
